@@ -5,7 +5,8 @@ spec   : spec/PenlogContract.tla (contract: Filter/Forward/Reverse/Head/Tail, cl
 MC     : MC_Penlog_{quick,full,ops3,live}.cfg exhaustive; devS24/devS25/devS26/devS26e negative controls
 binding: writer = real add_zst_log_handler/_JSONFormatter/remove_zst_log_handler,
          reader = real PenlogReader (fresh and used) and the hr entry point, containers
-         .zst/.gz/plain/stdin, with/without "<prio>" prefix;
+         .zst/.gz/plain/stdin, with/without "<prio>" prefix; .zst of several frames (logs of several
+         runs joined with cat, re-framed logs) and .gz of several members;
          code->spec: every session validated by Trace_Penlog (TLC);
          spec->code: TLC-simulated design behaviours replayed on real logs.
 """
@@ -116,6 +117,153 @@ def _enum_logs(lmax: int) -> list[tuple[str, ...]]:
     return [t for n in range(lmax + 1) for t in itertools.product(ENUM_LEVELS, repeat=n)]
 
 
+# run lengths of the enumerated JOINED logs (2..4 runs, each written by the real writer into its own file, the files
+# concatenated byte-wise): a run that logged nothing at every position, total length <= the model's N
+JOINED_RUNS = [(1, 1), (0, 1), (1, 0), (0, 0), (2, 1), (1, 2), (2, 2), (0, 2), (2, 0), (3, 1), (1, 3), (3, 2), (2, 3),
+               (1, 1, 1), (1, 0, 1), (0, 1, 0), (0, 0, 1), (1, 0, 0), (2, 1, 2), (1, 2, 1), (1, 1, 2),
+               (1, 1, 1, 1), (1, 0, 0, 1), (0, 1, 1, 0), (2, 1, 1, 1), (0, 0, 0, 0)]
+JOINED_RUNS_THOROUGH = [(3, 3), (2, 2, 2), (4, 2), (1, 1, 2, 2), (0, 3, 0, 3)]
+
+
+def _joined_family(P: Any, d: Path, batch: Any, meta: Any, rnd: random.Random, seed: int, quick: bool,
+                   ops_all: list[dict[str, Any]], firsts: list[dict[str, Any]],
+                   probes: list[dict[str, Any]]) -> dict[str, Any]:
+    """Logs that consist of SEVERAL zstd frames / gzip members (P5: ".zst" and ".gz" input is whatever a valid file
+    of that format holds): the logs of 2..4 runs joined with `cat`, and logs re-framed by other compressors.
+    What has to be read back is what run 1 logged followed by what run 2 logged ... (P1-P4, reader and hr)."""
+    o = P.op
+    multi = P.MULTI_ZST + P.MULTI_GZ
+    prefixes = ("all", "none", "mixed")
+    stats = {"joined_logs": 0, "containers_with_2_or_more_frames": 0, "max_frames": 0, "sessions": 0}
+    n_before = batch.n
+
+    def note(c: Any) -> Any:
+        stats["containers_with_2_or_more_frames"] += c.frames >= 2
+        stats["max_frames"] = max(stats["max_frames"], c.frames)
+        return c
+
+    def derived(w: Any, kind: str, prefix: str) -> Any:
+        """A container made from the DECODED log; None if the reference decoder cannot read what the writer under
+        test wrote (the sessions on the writer's own files show that, there is nothing to re-frame then)."""
+        try:
+            return note(P.Container(w, kind, prefix, d))
+        except Machinery:
+            raise
+        except Exception:  # noqa: BLE001
+            stats["containers_skipped_log_not_decodable"] = stats.get("containers_skipped_log_not_decodable", 0) + 1
+            return None
+
+    # ---- enumerated: every operation of the model on the joined file, reduced operations on the re-framed ones
+    shapes = JOINED_RUNS + ([] if quick else JOINED_RUNS_THOROUGH)
+    rot = 0
+    for si, runs in enumerate(shapes):
+        for pat in ((0,) if quick and si % 2 else (0, 1)):
+            j = 0
+            parts = []
+            for n in runs:
+                lv = [ENUM_LEVELS[(j + k) % 3] if pat == 0 else ENUM_LEVELS[(2 * (j + k) + 2) % 3] for k in range(n)]
+                parts.append(P.spec_enum(lv))
+                j += n
+            w = P.write_log(P.spec_joined(parts), d, f"j{si}_{pat}")
+            stats["joined_logs"] += 1
+            ln = w.n
+            c0 = note(P.Container(w, "zst", "all", d))
+            for op_ in ops_all:
+                batch.add(w, P.run_reader_session(c0, [op_]), meta("reader", c0, "joined-runs-enum"))
+            for f in firsts:
+                batch.add(w, P.run_reader_session(c0, [f, *probes]), meta("reader", c0, "joined-runs-enum-probe"))
+            hr_ops = [o("fwd", 8), o("rev", 8), o("head", 8, 1), o("head", 5, 3), o("tail", 8, 1), o("tail", 8, 3),
+                      o("tail", 5, -1), o("rev", 5), o("fwd", -1)]
+            if not quick:
+                hr_ops += [o(m, p, n) for p in (5, 8, -1) for m in ("head", "tail") for n in (0, 1, 3, -1)]
+            for op_ in hr_ops:
+                batch.add(w, P.run_hr_session(c0, op_, argv=P.hr_argv(op_, rnd), content=ln <= 2),
+                          meta("hr", c0, "joined-runs-enum-hr"))
+            ops_multi = [o("len"), o("fwd", 8), o("fwd", 5), o("fwd", 8, 0, 1), o("fwd", 8, 0, max(ln - 1, 0)),
+                         o("rev", 8), o("rev", 5), o("head", 8, 1), o("head", 8, ln + 1), o("tail", 8, 1),
+                         o("tail", 8, ln + 1), o("tail", 5, 2), o("head", 2, 2)]
+            kinds = multi if not quick else [multi[(rot + k) % len(multi)] for k in range(4)]
+            rot += 4
+            for ki, kind in enumerate(kinds):
+                c = derived(w, kind, prefixes[(si + ki) % 3])
+                if c is None:
+                    continue
+                for op_ in ops_multi:
+                    batch.add(w, P.run_reader_session(c, [op_]), meta("reader", c, "multi-frame-enum"))
+                for f in firsts[ki % 3::3]:
+                    batch.add(w, P.run_reader_session(c, [f, *probes]), meta("reader", c, "multi-frame-enum-probe"))
+                hr_multi = (o("fwd", 8), o("tail", 8, 2), o("rev", 5), o("head", 8, ln))
+                for op_ in (hr_multi[(si + ki) % 4:][:1] if quick else hr_multi):
+                    batch.add(w, P.run_hr_session(c, op_), meta("hr", c, "multi-frame-enum-hr"))
+
+    # ---- seeded random runs with hostile content
+    sizes = [(3, 4), (1, 1, 1, 1), (17, 0, 9), (40, 25), (0, 6), (6, 0), (2, 3, 4, 5)]
+    if not quick:
+        sizes += [(80, 150), (1, 40, 1), (9, 9, 9, 9), (150, 1)]
+    for si, runs in enumerate(sizes):
+        shape = "plain" if si == 2 else "mixed"
+        w = P.write_log(P.spec_joined([P.spec_random(seed, 2000 + 10 * si + k, n, shape) for k, n in enumerate(runs)]),
+                        d, f"jr{si}")
+        stats["joined_logs"] += 1
+        n, n1 = w.n, runs[0]
+        cs = [("zst", "all"), ("zst", "none"), ("gz", "all")] + ([] if quick else [("plain", "mixed"), ("stdin-pipe", "all")])
+        cs += [(kind, prefixes[(si + ki) % 3]) for ki, kind in enumerate(multi)]
+        for ci, (kind, prefix) in enumerate(cs):
+            c = note(P.Container(w, kind, prefix, d)) if ci == 0 else derived(w, kind, prefix)
+            if c is None:
+                continue
+            full = ci == 0 or not quick          # the joined file itself: everything; the others: a reduced set
+            origin = "joined-runs-random" if "+" not in kind else "multi-frame-random"
+            m = meta("reader", c, origin)
+            batch.add(w, P.run_reader_session(c, [o("fwd", 8)], content=True), m)
+            sess: list[list[dict[str, Any]]] = [[o("len")]]
+            sess += [[o("fwd", p)] for p in ((5, 3, 7) if full else (5,))]
+            sess += [[o("rev", p)] for p in ((8, 4) if full else (8,))]
+            counts = sorted({1, max(n1, 1), n1 + 1, max(n - n1, 1), max(n - 1, 0), n, n + 1} if full else
+                            {1, n1 + 1, n + 1})
+            sess += [[o(md, 8, k)] for md in ("head", "tail") for k in counts]
+            sess += [[o("tail", 4, 2)], [o("head", 6, n1 + 1)]]
+            sess += [[o("fwd", rnd.choice([8, 6, 3]), 0, k)]
+                     for k in sorted({1, max(n1 - 1, 1), max(n1, 1), n1 + 1, max(n - 1, 1)} if full else
+                                     {max(n1, 1), max(n - 1, 1)})]
+            pool = sess[:]
+            for _ in range(4 if full else 2):
+                sess.append([rnd.choice(pool)[0] for _ in range(rnd.randint(2, 4))])
+            for s_ in sess:
+                batch.add(w, P.run_reader_session(c, s_), m)
+            mh = meta("hr", c, origin + "-hr")
+            hr_ops = (o("fwd", 8), o("rev", 8), o("fwd", -1), o("head", 8, n1 + 1), o("tail", 8, max(n - n1, 0) + 1),
+                      o("tail", 8, -1), o("head", 6, -1), o("rev", 4))
+            for op_ in (hr_ops if full else [hr_ops[(si + ci + k) % 8] for k in (0, 3)]):
+                batch.add(w, P.run_hr_session(c, op_, argv=P.hr_argv(op_, rnd), content=True), mh)
+
+    # ---- long runs: the first frames are larger than the block a decoder reads at once (the next frame does not
+    #      start in the block the file starts in)
+    runs = (2400, 2000, 40) if quick else (9000, 7000, 40, 5000)
+    w = P.write_log(P.spec_joined([P.spec_random(seed, 2900 + k, n, "mixed") for k, n in enumerate(runs)]), d, "jbig")
+    stats["joined_logs"] += 1
+    first = (d / "jbig.run1.zst").stat().st_size
+    stats["long_runs"] = {"records": list(runs), "first_frame_bytes": first, "file_bytes": w.zst.stat().st_size}
+    vacuous = []
+    if first <= P.zstandard.DECOMPRESSION_RECOMMENDED_INPUT_SIZE:
+        vacuous.append(f"joined long runs: the first frame has only {first} bytes (fits one input block)")
+    for kind, prefix in (("zst", "all"), ("zst+nosize@runs", "all"), ("gz+members@runs", "none"),
+                         ("zst+pzstd@mid", "mixed")):
+        c = note(P.Container(w, kind, prefix, d)) if kind == "zst" else derived(w, kind, prefix)
+        if c is None:
+            continue
+        ops_big = [o("len"), o("fwd", 8), o("tail", 8, 50), o("fwd", 5, 0, runs[0] + 1), o("rev", 3)]
+        for op_ in (ops_big if kind == "zst" else ops_big[:3]):
+            batch.add(w, P.run_reader_session(c, [op_]), meta("reader", c, "joined-long-runs"))
+        batch.add(w, P.run_hr_session(c, o("tail", 8, 3)), meta("hr", c, "joined-long-runs-hr"))
+    stats["sessions"] = batch.n - n_before
+    if stats["containers_with_2_or_more_frames"] < stats["joined_logs"]:
+        raise Machinery(f"multi-frame family is vacuous: {stats}")
+    # judged at the end: a tree whose writer loses records is a VIOLATION (from TLC), not a machinery failure
+    stats["vacuous"] = vacuous
+    return stats
+
+
 def run(tier: str, seed: int) -> Report:
     quiet_gallia_logging()
     from harness import c17_penlog as P
@@ -128,7 +276,11 @@ def run(tier: str, seed: int) -> Report:
                 "stdin-file x prefix all/none/mixed; plus seeded random logs (arbitrary Unicode, control characters, "
                 "newlines, long lines, 7 levels, tags, exc_info, %-args; mutable %-arguments / message objects that the "
                 "caller changes right after the call, writer keeping up or held up), hr argv combinations and TLC-simulated "
-                "design behaviours; distinct = distinct (log, container, prefix, api, operation sequence); "
+                "design behaviours; logs of 2..4 runs (each written by the real handler into its own file, runs that "
+                "logged nothing included) joined byte-wise into ONE .zst, and containers made of several zstd frames / "
+                "gzip members (frames without content size / with checksum, flush(FLUSH_FRAME) boundaries in the middle "
+                "of a record, a frame per record, pzstd-style skippable frames, frames larger than a decoder's input "
+                "block): the record sequence is what the runs logged, one after the other; distinct = distinct (log, container, prefix, api, operation sequence); "
                 "non-trivial = log non-empty and (operation other than plain forward-all, or a used reader, or a "
                 "container other than the writer's own file)")
     rep.assumptions = [
@@ -260,6 +412,8 @@ def _drive(rep: Report, tier: str, seed: int, P: Any, d: Path, futs: dict[str, A
     specs.append(dict(P.spec_random(seed, 1000, 4, "long"), longlen=300_000 if quick else 3_000_000))
     specs.append(P.spec_random(seed, 1001, 1000 if quick else 6000, "plain"))
     kinds = [(k, "all") for k in P.CONTAINERS] + [("plain", "none"), ("gz", "mixed"), ("zst", "none")]
+    # the log of ONE run re-framed by another compressor (pzstd: a frame per chunk; a gzip member per record)
+    kinds += [("zst+pzstd@mid", "all"), ("gz+members@rec", "mixed")]
     for si, spec in enumerate(specs):
         w = P.write_log(spec, d, f"r{si}")
         n = w.n
@@ -328,6 +482,9 @@ def _drive(rep: Report, tier: str, seed: int, P: Any, d: Path, futs: dict[str, A
                           meta("reader", cmut, "mutable-args-changed-after-the-call"))
     rep.extra["mutable_args_calls_rendering_differently_afterwards"] = mut_stats
     mark("drive_random")
+    # ---- 2c. logs of several runs joined with `cat`, containers made of several zstd frames / gzip members
+    rep.extra["joined_runs_multi_frame"] = _joined_family(P, d, batch, meta, rnd, seed, quick, ops_all, firsts, probes)
+    mark("drive_joined")
     # ---- 3. spec -> code: behaviours of the design layer (all deviations off) replayed on real logs
     _collect_mc(rep, futs)
     mark("wait_for_model_checking")
@@ -408,6 +565,8 @@ def _drive(rep: Report, tier: str, seed: int, P: Any, d: Path, futs: dict[str, A
     for _rank, _i, label, sig, detail in sorted(uniq, key=lambda u: (u[0], u[1])):
         rep.violate(label, sig, detail)
     rep.extra["violating_sessions"] = len(bad)
+    if not bad and rep.extra["joined_runs_multi_frame"]["vacuous"]:
+        raise Machinery("; ".join(rep.extra["joined_runs_multi_frame"]["vacuous"]))
     rep.extra["violation_counts"] = dict(sorted(counts.items(), key=lambda kv: -kv[1])[:40])
     for t, m, label in batch.samples[:: max(1, len(batch.samples) // 6)]:
         rep.sample({"log": [r["prio"] for r in m["log"]], "container": m["container"],
